@@ -1,6 +1,289 @@
-//! C25 — not implemented yet.
-use mc_core::Ctx;
+//! C25 — rounding follows the declared rounding modes.
+//!
+//! Bounded-exhaustive: (boundary lattice L(T) ∪ tie set) × every decimal-place count 0..=scale × all 7
+//! modes through the real `checked_round`, plus `checked_floor`, `checked_ceiling`, the withdraw-strategy
+//! helper `for_withdrawal` (Decimal, divisibility 0..=18, Exact + 7 rounded strategies) and
+//! `PreciseDecimal::checked_truncate(mode)`. Oracle: BigInt floor/ceil/half rules written from the
+//! documented mode table (`round_ref`): the prescribed multiple if representable, else None; values already
+//! at the precision unchanged; never a panic for an allowed place count.
+use crate::numref::*;
+use mc_core::{par_range, Ctx, Level, Local};
+use num_bigint::BigInt;
+use num_traits::Signed;
+use radix_common::math::*;
+use radix_engine_interface::blueprints::resource::{ForWithdrawal, WithdrawStrategy};
+use serde_json::{json, Map, Value};
+use std::collections::BTreeSet;
 
-pub fn run(_ctx: Ctx) -> ! {
-    mc_core::machinery_error("C25: not implemented")
+/// Tie set: for every rounding unit 10^j (j = 1..=scale): ±(m·10^j + 5·10^(j−1)) and its two raw
+/// neighbours, for m in {0,1,2,3} and the four largest m that still fit (both parities near MAX / MIN).
+fn tie_set(ty: &Ty, quick: bool) -> Vec<BigInt> {
+    let mut s: BTreeSet<BigInt> = BTreeSet::new();
+    for j in 1..=ty.scale {
+        if quick && j % 2 == 0 && j != ty.scale {
+            continue;
+        }
+        let unit = pow10(j);
+        let half = pow10(j - 1) * 5;
+        let top: BigInt = &ty.max / &unit;
+        let mut ms: Vec<BigInt> = (0..4).map(BigInt::from).collect();
+        for d in 0..5 {
+            ms.push(&top - d);
+        }
+        ms.push(&top + 1); // -(top+1)·unit - half may still be >= MIN
+        for m in ms {
+            if m.is_negative() {
+                continue;
+            }
+            let t = &m * &unit + &half;
+            for d in -1i32..=1 {
+                let p: BigInt = &t + BigInt::from(d);
+                for v in [p.clone(), -p] {
+                    if ty.fits(&v) {
+                        s.insert(v);
+                    }
+                }
+            }
+        }
+    }
+    s.into_iter().collect()
+}
+
+/// Digit-window family (thorough): for every rounding unit 10^j all 1000 settings of the three digits at
+/// positions j, j-1, j-2 (the digit that decides parity, the digit that decides the half, and the first
+/// digit below it), with and without a trailing raw 1, on top of a small / near-the-range-end prefix.
+fn window_set(ty: &Ty) -> BTreeSet<BigInt> {
+    let mut s: BTreeSet<BigInt> = BTreeSet::new();
+    for j in 0..=ty.scale {
+        let low = j.saturating_sub(2);
+        let span = 10u32.pow(j - low + 1); // 10, 100 or 1000 digit settings
+        let hi_unit = pow10(j + 1);
+        let lo_unit = pow10(low);
+        let top: BigInt = &ty.max / &hi_unit;
+        let prefixes: Vec<BigInt> = vec![BigInt::from(0), BigInt::from(1), &top - 1, top.clone(), &top + 1];
+        for m in &prefixes {
+            if m.is_negative() {
+                continue;
+            }
+            for w in 0..span {
+                for t in 0..=1u32 {
+                    if t == 1 && low == 0 {
+                        continue;
+                    }
+                    let p: BigInt = m * &hi_unit + BigInt::from(w) * &lo_unit + BigInt::from(t);
+                    for v in [p.clone(), -p] {
+                        if ty.fits(&v) {
+                            s.insert(v);
+                        }
+                    }
+                }
+            }
+        }
+    }
+    s
+}
+
+fn values<T: Fixed>(quick: bool) -> Lat<T> {
+    let ty = Ty::of::<T>();
+    // the quick tier already uses the full lattice and the full tie set (the whole sweep costs seconds);
+    // thorough adds the digit-window family
+    let mut s: BTreeSet<BigInt> = lattice(&ty, false, true).into_iter().collect();
+    s.extend(tie_set(&ty, false));
+    if !quick {
+        s.extend(window_set(&ty));
+    }
+    Lat::from_values(ty, s.into_iter().collect())
+}
+
+fn expect_round(ty: &Ty, v: &BigInt, dp: u32, mode: RoundingMode) -> (Option<BigInt>, &'static str) {
+    let r = round_ref(v, ty.scale, dp, mode);
+    if &r == v {
+        (Some(r), "round:already-at-precision")
+    } else if ty.fits(&r) {
+        let unit = pow10(ty.scale - dp);
+        let (_, rem) = div_floor_pos(v, &unit);
+        let tie = &rem * 2 == unit;
+        (Some(r), if tie { "round:tie" } else { "round:inexact" })
+    } else {
+        (None, "round:overflow")
+    }
+}
+
+#[allow(clippy::too_many_arguments)]
+fn check_round<T: Fixed>(ty: &Ty, v: &BigInt, vv: T, dp: u32, mode: RoundingMode, via: &str, got: Result<Option<BigInt>, String>, l: &mut Local) {
+    l.eval();
+    let (exp, class) = expect_round(ty, v, dp, mode);
+    l.class(class);
+    if let Some(kind) = verdict(ty, &exp, &got) {
+        let _ = vv;
+        report(
+            l,
+            kind,
+            format!("{kind}:{}:{via}:{}", T::NAME, mode_name(mode)),
+            format!(
+                "{}::{via}({}, places={dp}, {}) [raw {v}]: mode table prescribes {}, real code returned {}",
+                T::NAME,
+                render(v, ty.scale),
+                mode_name(mode),
+                show_big(&exp),
+                show_got(&got)
+            ),
+            json!({"kind": "round", "type": T::NAME, "via": via, "a": v.to_string(), "places": dp, "mode": mode_name(mode)}),
+        );
+    }
+}
+
+fn sweep<T: Fixed>(ctx: &Ctx, vals: &Lat<T>) {
+    let ty = &vals.ty;
+    par_range(ctx, vals.len() as u64, 4, |i, l| {
+        let i = i as usize;
+        let (v, vv) = (&vals.big[i], vals.val[i]);
+        for dp in 0..=ty.scale {
+            for mode in ALL_MODES {
+                let got = got_big(mc_core::catch(|| vv.c_round(dp as i32, mode)));
+                check_round(ty, v, vv, dp, mode, "checked_round", got, l);
+            }
+        }
+        let got = got_big(mc_core::catch(|| vv.c_floor()));
+        check_round(ty, v, vv, 0, RoundingMode::ToNegativeInfinity, "checked_floor", got, l);
+        let got = got_big(mc_core::catch(|| vv.c_ceiling()));
+        check_round(ty, v, vv, 0, RoundingMode::ToPositiveInfinity, "checked_ceiling", got, l);
+        if i % 211 == 3 {
+            let dp = (i as u32 * 7) % (ty.scale + 1);
+            let mode = ALL_MODES[i % 7];
+            let (e, c) = expect_round(ty, v, dp, mode);
+            l.sample(|| json!({"type": T::NAME, "value": render(v, ty.scale), "places": dp, "mode": mode_name(mode), "expected_raw": show_big(&e), "class": c}));
+        }
+    });
+}
+
+fn sweep_withdrawal(ctx: &Ctx, vals: &Lat<Decimal>) {
+    let ty = &vals.ty;
+    par_range(ctx, vals.len() as u64, 4, |i, l| {
+        let i = i as usize;
+        let (v, vv) = (&vals.big[i], vals.val[i]);
+        for div in 0..=18u8 {
+            // Exact: the amount itself, untouched
+            l.eval();
+            l.class("for_withdrawal:exact-strategy");
+            let got = got_big(mc_core::catch(|| vv.for_withdrawal(div, WithdrawStrategy::Exact)));
+            if let Some(kind) = verdict(ty, &Some(v.clone()), &got) {
+                report(
+                    l,
+                    kind,
+                    format!("{kind}:Decimal:for_withdrawal:Exact"),
+                    format!("for_withdrawal({}, divisibility={div}, Exact): expected the amount unchanged, real code returned {}", render(v, 18), show_got(&got)),
+                    json!({"kind": "for_withdrawal", "a": v.to_string(), "divisibility": div, "mode": "Exact"}),
+                );
+            }
+            for mode in ALL_MODES {
+                let got = got_big(mc_core::catch(|| vv.for_withdrawal(div, WithdrawStrategy::Rounded(mode))));
+                check_round(ty, v, vv, div as u32, mode, "for_withdrawal", got, l);
+            }
+        }
+    });
+}
+
+/// PreciseDecimal::checked_truncate(mode): round to 18 places by the mode, then narrow to Decimal.
+fn sweep_truncate(ctx: &Ctx, vals: &Lat<PreciseDecimal>) {
+    let ty = &vals.ty;
+    let dty = Ty::of::<Decimal>();
+    let e18 = pow10(18);
+    par_range(ctx, vals.len() as u64, 16, |i, l| {
+        let i = i as usize;
+        let (v, vv) = (&vals.big[i], vals.val[i]);
+        for mode in ALL_MODES {
+            l.eval();
+            let r = round_ref(v, 36, 18, mode);
+            // the rounding step works in PreciseDecimal: if the rounded value does not exist there, None
+            let exp = if ty.fits(&r) { dty.some_if_fits(&r / &e18) } else { None };
+            l.class(if exp.is_some() { "checked_truncate:some" } else { "checked_truncate:out-of-range" });
+            let got = got_big(mc_core::catch(|| vv.checked_truncate(mode)));
+            match verdict(&dty, &exp, &got) {
+                None => {}
+                Some("exact-MIN-rejected") => {
+                    // The rounding is right; what fails is the I256 -> I192 narrowing of exactly Decimal::MIN.
+                    // That is a conversion defect owned (and reported as a violation) by C24; C25's statement
+                    // is about the rounding rule and is silent about the narrowing step.
+                    l.info("checked_truncate: rounded value is exactly Decimal::MIN and the narrowing rejects it (conversion defect reported under C24)");
+                }
+                Some(kind) => report(
+                    l,
+                    kind,
+                    format!("{kind}:PreciseDecimal:checked_truncate:{}", mode_name(mode)),
+                    format!("PreciseDecimal::checked_truncate({}, {}) [raw {v}]: expected {}, real code returned {}", render(v, 36), mode_name(mode), show_big(&exp), show_got(&got)),
+                    json!({"kind": "truncate", "a": v.to_string(), "mode": mode_name(mode)}),
+                ),
+            }
+        }
+    });
+}
+
+fn replay(ctx: Ctx, case: Value) -> ! {
+    let kind = case.get("kind").and_then(|k| k.as_str()).unwrap_or("");
+    let a = parse_big(&case, "a");
+    let mode_s = case.get("mode").and_then(|k| k.as_str()).unwrap_or("");
+    let mut l = Local::new();
+    match kind {
+        "round" => {
+            let mode = mode_by_name(mode_s).unwrap_or_else(|| mc_core::machinery_error("replay: unknown mode"));
+            let dp = case.get("places").and_then(|k| k.as_u64()).unwrap_or(0) as u32;
+            let via = case.get("via").and_then(|k| k.as_str()).unwrap_or("checked_round").to_string();
+            fn one<T: Fixed>(a: &BigInt, dp: u32, mode: RoundingMode, via: &str, l: &mut Local, f: impl FnOnce(T) -> Option<T>) {
+                let ty = Ty::of::<T>();
+                let vv: T = from_big(a).unwrap_or_else(|| mc_core::machinery_error("replay: value out of range"));
+                let got = got_big(mc_core::catch(|| f(vv)));
+                println!("REPLAY {}::{via}({}, places={dp}, {}): prescribed {}, real code returned {}", T::NAME, render(a, ty.scale), mode_name(mode), show_big(&expect_round(&ty, a, dp, mode).0), show_got(&got));
+                check_round(&ty, a, vv, dp, mode, via, got, l);
+            }
+            let is_dec = case.get("type").and_then(|k| k.as_str()) == Some("Decimal");
+            match (via.as_str(), is_dec) {
+                ("for_withdrawal", _) => one::<Decimal>(&a, dp, mode, &via, &mut l, |v| v.for_withdrawal(dp as u8, WithdrawStrategy::Rounded(mode))),
+                ("checked_floor", true) => one::<Decimal>(&a, 0, mode, &via, &mut l, |v| v.c_floor()),
+                ("checked_floor", false) => one::<PreciseDecimal>(&a, 0, mode, &via, &mut l, |v| v.c_floor()),
+                ("checked_ceiling", true) => one::<Decimal>(&a, 0, mode, &via, &mut l, |v| v.c_ceiling()),
+                ("checked_ceiling", false) => one::<PreciseDecimal>(&a, 0, mode, &via, &mut l, |v| v.c_ceiling()),
+                (_, true) => one::<Decimal>(&a, dp, mode, &via, &mut l, |v| v.c_round(dp as i32, mode)),
+                (_, false) => one::<PreciseDecimal>(&a, dp, mode, &via, &mut l, |v| v.c_round(dp as i32, mode)),
+            }
+        }
+        _ => mc_core::machinery_error("replay of this case kind is not supported; rerun the tier (the enumeration is deterministic)"),
+    }
+    println!("REPLAY verdict: {}", if l.violations.is_empty() { "agrees with the mode table" } else { "VIOLATES the mode table" });
+    ctx.merge(l);
+    ctx.finish(Level::Exploration, "replay", 0, false, Map::new(), &[])
+}
+
+pub fn run(ctx: Ctx) -> ! {
+    if let Some(case) = ctx.read_replay_case() {
+        replay(ctx, case);
+    }
+    let quick = ctx.quick();
+    let vd = values::<Decimal>(quick);
+    let vp = values::<PreciseDecimal>(quick);
+    sweep(&ctx, &vd);
+    sweep(&ctx, &vp);
+    sweep_withdrawal(&ctx, &vd);
+    sweep_truncate(&ctx, &vp);
+
+    let classes = ctx.classes();
+    let nontrivial: u64 = classes.iter().filter(|(k, _)| ["round:tie", "round:inexact", "round:overflow", "checked_truncate:out-of-range"].contains(&k.as_str())).map(|(_, v)| *v).sum();
+    let mut cov = Map::new();
+    cov.insert("values_decimal".into(), json!(vd.len()));
+    cov.insert("values_precise_decimal".into(), json!(vp.len()));
+    cov.insert("decimal_places".into(), json!({"Decimal": "0..=18", "PreciseDecimal": "0..=36"}));
+    cov.insert("modes".into(), json!(ALL_MODES.iter().map(|m| mode_name(*m)).collect::<Vec<_>>()));
+    cov.insert("withdraw_divisibilities".into(), json!("0..=18"));
+    ctx.finish(
+        Level::Exploration,
+        "a case = one (type, entry point, value, decimal places, mode) evaluated on the real code and on the BigInt mode table; values (distinct) = boundary lattice L(T) ∪ tie set (±(m·10^j+5·10^(j-1)) and raw neighbours, m small and near the range ends, every rounding unit j) ∪ in the thorough tier the digit-window family (all 1000 settings of the three digits around every rounding position, with/without a trailing raw 1, small and near-range-end prefixes); entry points = checked_round (all places × 7 modes), checked_floor, checked_ceiling, for_withdrawal (divisibility 0..=18 × Exact + 7 modes), checked_truncate (7 modes); non-trivial = cases where the value is not already at the precision (inexact, exact tie, or prescribed multiple unrepresentable)",
+        nontrivial,
+        true,
+        cov,
+        &[
+            "decimal-place counts outside 0..=SCALE are documented to panic and are not part of the property ('any allowed number of decimal places')",
+            "checked_truncate returning None for a rounded value of exactly Decimal::MIN is counted as informational here (narrowing defect, violation under C24)",
+            "raw values are transported as u64 limbs via from_digits/to_digits",
+        ],
+    )
 }
